@@ -101,4 +101,162 @@ theorem powFrac_q (r w : Nat) (e : Int) (hr : 0 < r) :
     refine ⟨?_, Nat.pow_pos hr⟩
     push_cast; rw [zpow_neg, zpow_natCast]; ring
 
+/-- **`bellerophon` is sound for untruncated mantissas.** -/
+theorem bellerophon_untruncated_sound {F : FTy} {p eb : Nat} (lay : Layout F p eb) (hp60 : p ≤ 60)
+    {r : Nat} {P : Powers} (hc : BellFacts r P) (n : Num) (hmany : n.manyDigits = false)
+    (hw : n.mantissa < 2 ^ 64) {fp : ExtendedFloat80}
+    (h : bellerophon F P n false = .ok fp) (hv : 0 ≤ fp.exp) :
+    extendedToFloat F fp =
+      roundNE F.fmt (powFrac r n.exponent n.mantissa).1 (powFrac r n.exponent n.mantissa).2 := by
+  have hf := lay.wf
+  have hr2 := hc.r2
+  have hr0 : 0 < r := by omega
+  have hstep := hc.step_pos
+  have hbias0 := hc.bias_nn
+  have hbias := hc.bias_le
+  have hpow_mono : ∀ {a b : Nat}, a ≤ b → r ^ a ≤ r ^ b := fun h => Nat.pow_le_pow_right hr0 h
+  have h2r : ∀ m : Nat, 2 ^ m ≤ r ^ m := fun m => Nat.pow_le_pow_left hr2 m
+  unfold bellerophon at h
+  unfold bellPrepare litExpCut at h
+  simp only [] at h
+  by_cases h1 : n.mantissa = 0 ∨ n.exponent ≤ -0x1000
+  · -- zero
+    rw [if_pos h1] at h
+    simp only [] at h
+    injection h with h; subst h
+    rw [ext_zero lay]
+    rcases h1 with h0 | he
+    · rw [h0, powFrac_zero]
+    · unfold powFrac
+      rw [if_neg (by omega)]
+      symm
+      apply tiny_pow lay _ _ hw
+      have : 1140 ≤ (-n.exponent).toNat := by omega
+      exact Nat.le_trans (Nat.pow_le_pow_right (by norm_num) this) (h2r _)
+  · rw [if_neg h1] at h
+    have hw0 : n.mantissa ≠ 0 := fun h0 => h1 (Or.inl h0)
+    have he1 : -0x1000 < n.exponent := by
+      apply Classical.byContradiction; intro hc'; exact h1 (Or.inr (by omega))
+    by_cases h2 : n.exponent ≥ 0x1000
+    · -- infinity
+      rw [if_pos h2] at h
+      simp only [] at h
+      injection h with h; subst h
+      rw [ext_inf lay]
+      unfold powFrac
+      rw [if_pos (by omega)]
+      symm
+      apply huge_pow lay
+      have h1024 : 1024 ≤ n.exponent.toNat := by omega
+      have : 2 ^ 1024 ≤ r ^ n.exponent.toNat :=
+        Nat.le_trans (Nat.pow_le_pow_right (by norm_num) h1024) (h2r _)
+      have : 1 * r ^ n.exponent.toNat ≤ n.mantissa * r ^ n.exponent.toNat :=
+        Nat.mul_le_mul_right _ (by omega)
+      omega
+    · rw [if_neg h2] at h
+      have he2 : n.exponent < 0x1000 := by omega
+      -- the biased exponent
+      have hE : wrapI32 (wrapI32 n.exponent + P.bias) = n.exponent + P.bias := by
+        unfold wrapI32 wrapI
+        have h32 : (2 : Int) ^ 32 = 4294967296 := by norm_num
+        have h31 : (2 : Int) ^ (32 - 1) = 2147483648 := by norm_num
+        simp only [h32, h31]
+        omega
+      rw [hE] at h
+      rw [if_neg (by omega)] at h
+      by_cases h3 : n.exponent + P.bias < 0
+      · rw [if_pos h3] at h
+        simp only [] at h
+        injection h with h; subst h
+        rw [ext_zero lay]
+        unfold powFrac
+        rw [if_neg (by omega)]
+        symm
+        apply tiny_pow lay _ _ hw
+        have : P.bias.toNat + 1 ≤ (-n.exponent).toNat := by omega
+        exact Nat.le_trans hc.under (hpow_mono this)
+      · rw [if_neg h3] at h
+        obtain ⟨En, hEn⟩ := Int.eq_ofNat_of_zero_le (show 0 ≤ n.exponent + P.bias by omega)
+        obtain ⟨sn, hsn⟩ := Int.eq_ofNat_of_zero_le (show 0 ≤ P.step by omega)
+        have hsn0 : 0 < sn := by omega
+        rw [hEn, hsn] at h
+        have hdiv : (Int.tdiv (En : Int) (sn : Int)).toNat = En / sn := by
+          rw [Int.tdiv_eq_ediv_of_nonneg (by omega)]; norm_cast
+        have hmod : (Int.tmod (En : Int) (sn : Int)).toNat = En % sn := by
+          rw [Int.tmod_eq_emod_of_nonneg (by omega)]; norm_cast
+        rw [hdiv, hmod] at h
+        by_cases h4 : En / sn ≥ P.large.size
+        · rw [if_pos h4] at h
+          simp only [] at h
+          injection h with h; subst h
+          rw [ext_inf lay]
+          have hge : P.large.size * sn ≤ En := by
+            have := Nat.div_mul_le_self En sn
+            have := Nat.mul_le_mul_right sn h4
+            omega
+          have hsn' : P.step.toNat = sn := by omega
+          have hen : P.large.size * sn - P.bias.toNat ≤ n.exponent.toNat := by omega
+          have hbsz := hc.bsz
+          rw [hsn'] at hbsz
+          unfold powFrac
+          rw [if_pos (show n.exponent ≥ 0 by omega)]
+          symm
+          apply huge_pow lay
+          have := hc.over
+          rw [hsn'] at this
+          have h5 := hpow_mono hen
+          have : 1 * r ^ n.exponent.toNat ≤ n.mantissa * r ^ n.exponent.toNat :=
+            Nat.mul_le_mul_right _ (by omega)
+          omega
+        · rw [if_neg h4] at h
+          have hli : En / sn < P.large.size := by omega
+          have hsi : En % sn < P.step.toNat := by
+            have := Nat.mod_lt En hsn0; omega
+          obtain ⟨hsI, hsIlt, sm, ns, hgs, hns, hsmeq, hsm1, hsm2⟩ := small_facts (hc.small _ hsi)
+          obtain ⟨b, ebL, hgl, hb1, hb2, hebl, hebh, hbr1, hbr2⟩ := large_facts (hc.large _ hli)
+          rw [hmany] at h
+          simp only [Bool.false_eq_true, if_false, hsI, hgs, hgl] at h
+          -- the bracket of the large power
+          generalize hK : ((En / sn : Nat) : Int) * P.step - P.bias = K at *
+          obtain ⟨hB1, hB2⟩ := large_bracket hr2 K ebL hbr1 hbr2
+          obtain ⟨mant, errors, pw, hmid, hm1, hm2, her4, her36, hpw1, hpw2, hy1, hy2⟩ :=
+            scale_bound F n.mantissa (r ^ (En % sn)) sm ns b ebL ((r : ℚ) ^ K / 2 ^ ebL) hw0 hw
+              (Nat.pow_pos hr0) hsmeq hsm1 hsm2 hns hb1 hb2 hB1 hB2
+          rw [hmid] at h
+          simp only [] at h
+          -- the true value
+          obtain ⟨hxq, hden⟩ := powFrac_q r n.mantissa n.exponent hr0
+          have hrq : (r : ℚ) ≠ 0 := by
+            have : (0 : ℚ) < r := by exact_mod_cast hr0
+            exact ne_of_gt this
+          have hexp : n.exponent = ((En % sn : Nat) : Int) + K := by
+            have h1 := Nat.div_add_mod En sn
+            have : ((En / sn : Nat) : Int) * (sn : Int) + ((En % sn : Nat) : Int) = (En : Int) := by
+              rw [Int.mul_comm]; exact_mod_cast h1
+            rw [← hK, hsn]; omega
+          have hLb : ((L F.fmt : Nat) : Int) + 1 = F.C.exponentBias := by
+            rw [L_eq lay, lay.bias]; have := lay.hL; omega
+          have hy : ((n.mantissa * r ^ (En % sn) : Nat) : ℚ) * ((r : ℚ) ^ K / 2 ^ ebL) *
+              2 ^ (F.C.exponentBias - pw + ebL) =
+              ((powFrac r n.exponent n.mantissa).1 : ℚ) / (powFrac r n.exponent n.mantissa).2 *
+                2 ^ (((L F.fmt : Nat) : Int) + 1 - pw) := by
+            rw [hxq, hLb, hexp, zpow_add₀ hrq, zpow_natCast,
+              show F.C.exponentBias - pw + ebL = (F.C.exponentBias - pw) + ebL by ring,
+              zpow_add₀ (by norm_num : (2 : ℚ) ≠ 0)]
+            have h2 : (2 : ℚ) ^ ebL ≠ 0 := zpow_ne_zero _ (by norm_num)
+            push_cast
+            field_simp
+          rw [hy] at hy1 hy2
+          obtain ⟨hlo, hhi⟩ := bridge (L F.fmt) _ _ mant 4 errors pw hden hy1 hy2
+          have hBl : F.C.exponentBias ≤ 2000 := by
+            rw [lay.bias]; have := lay.hL1074; omega
+          have hB0 : 0 ≤ F.C.exponentBias := by rw [lay.bias]; omega
+          exact bellFinish_sound lay mant errors 4 pw _ _ (1 - pw).toNat (pw - 1).toNat hm1 hm2
+            (by have : (36 : Nat) < 2 ^ 32 := by norm_num
+                omega)
+            (by have : (2 : Int) ^ 40 = 1099511627776 := by norm_num
+                omega) (by omega) hden (by omega) hlo hhi her4
+            (by have : 2 ^ 4 ≤ 2 ^ (64 - p) := Nat.pow_le_pow_right (by norm_num) (by omega)
+                omega) (by omega) h hv
+
 end LexVerif.Proof.Bell
